@@ -220,7 +220,7 @@ class Ref:
 ATT = ['o', 'xo', 'xxo', 'xxx', 'x-', 'xx-', '-', 'r', 'xr', 'xxr', '']
 ATT_W = [6, 3, 2, 4, 1, 1, 2, 1, 1, 1, 1]
 
-def gen_competition(rng, athlib, nath=None, nheights=None, jo_heights=3, att_choice=None):
+def gen_competition(rng, athlib, nath=None, nheights=None, jo_heights=3, att_choice=None, jo_letters=('oxr', [4, 5, 1])):
     """drive a real competition + referee through a structured complete competition; returns
     (ops, comp, ref). Within a height athletes take trials round-robin (attempt 1 of everybody, ...)."""
     nath = nath or rng.randint(2, 4)
@@ -258,5 +258,5 @@ def gen_competition(rng, athlib, nath=None, nheights=None, jo_heights=3, att_cho
         rng.shuffle(parts)
         for b in parts:
             if c.state != 'jumpoff': break
-            do(('trial', b, rng.choices('oxr', [4, 5, 1])[0]))
+            do(('trial', b, rng.choices(jo_letters[0], jo_letters[1])[0]))
     return ops, c, r
